@@ -1,12 +1,14 @@
 """C03 - chemostated entries never change; everything else ignores the flag.
 Three families of observations: (a) kinetics.compute_dstatedt(apply_chemostats=True), make_dxdtf and the Euler engine
 against the rate law with the flag of that very (species, cell) [accept_C01]; (b) every sample of every engine's
-trajectory at the flagged entries [accept_C03_traj]; (c) RDSystem.apply_reaction [accept_C03_apply]."""
+trajectory at the flagged entries [accept_C03_traj]; (c) RDSystem.apply_reaction [accept_C03_apply]; (d) exact replays of the
+stochastic engines on systems with reservoir cells / reservoir species (flagged entries as reactants, diffusion sources and
+sinks: the unflagged entries must receive exactly the events the propensities and the seed prescribe) [accept_C07]."""
 import math
 import random
 from fractions import Fraction as Fr
 
-from . import core, si, sysgen, trajgen, engine_build, child, c01
+from . import core, si, sysgen, trajgen, engine_build, child, c01, c07
 from .core import g_float, g_list, g_nat, g_bool
 
 IMPORTS = "Units Grid System Engine EngineBuild AcceptC06 AcceptC05 AcceptC01 AcceptC02"
@@ -158,6 +160,31 @@ def oracle_apply(it):
     return True, name
 
 
+# ------------------------------------------------------------------------------ (d) flagged entries feed their neighbours
+def make_reservoir_case(rng, tier):
+    """a stochastic run where flagged entries matter as sources: a whole cell (every species) or a whole species is flagged and
+    well stocked, the rest starts almost empty - what the free entries gain comes out of the flagged ones"""
+    c = c07.make_case(rng, tier)
+    n, ns = sysgen.ncells(c["desc"]), len(c["desc"]["species"])
+    mode = rng.choice(["cell", "cell", "species", "cell_but_one", "mixed"])
+    chs = [False] * (n * ns)
+    if mode in ("cell", "cell_but_one", "mixed"):
+        i = rng.randrange(n)
+        for s in range(ns):
+            chs[s * n + i] = True
+        if mode == "cell_but_one" and ns > 1:
+            chs[rng.randrange(ns) * n + i] = False
+        if mode == "mixed":
+            chs = [b or rng.random() < 0.2 for b in chs]
+    else:
+        s = rng.randrange(ns)
+        for i in range(n):
+            chs[s * n + i] = True
+    c["chs"] = chs
+    c["state"] = [float(rng.randint(5, 40)) if b else float(rng.choice([0, 0, 0, 1, 2])) for b in chs]
+    return c
+
+
 # ------------------------------------------------------------------------------ driver
 def build_all(rng, tier, run=None):
     sysgen.POOLS["space"] = ["cm", "mm", "dmm", "cmm", "µm", "nm", "dm"]
@@ -261,10 +288,19 @@ def check(run):
                 "rate law under the flag of that very (species, cell); (b) trajectories of the three engines on grid and graph, four sampling "
                 "policies: all are screened by the property oracle, a fixed-size prefix and every objection are judged in Coq (flagged entries "
                 "equal in all samples); (c) apply_reaction by index / object, on the system state / an explicit state and map / with update, "
-                "n positive, negative, fractional, zero. non-trivial = at least one flagged entry (and two samples for trajectories)")
+                "n positive, negative, fractional, zero; (d) Gillespie and tau-leap runs on systems with a reservoir cell (every species flagged) / "
+                "a reservoir species / a reservoir cell with one free species, well stocked, the rest nearly empty, replayed exactly from "
+                "the seed as in C07 (every event / firing count the propensities prescribe must arrive in the free entries). non-trivial = at least one flagged entry (and two samples for trajectories)")
     core.decide(run, it_d, IMPORTS, "accept_C01", oracle_deriv, shard=20)
     core.decide(run, it_t, IMPORTS, "accept_C03_traj", oracle_traj, shard=60)
     core.decide(run, it_a, IMPORTS, "accept_C03_apply", oracle_apply, shard=40)
+    # (d)
+    ns_ = 100 if run.tier == "quick" else 2000
+    it_s = c07.build_items([make_reservoir_case(rng, run.tier) for _ in range(ns_)], run)
+    for it in it_s:
+        run.count("reservoir:%s:%s" % (it["case"]["engine"], it["case"]["desc"]["space"]["type"]))
+    res = core.decide(run, it_s, c07.IMPORTS, "accept_C07", c07.oracle, shard=6)
+    c07.summarise(run, res)
 
 
 def replay(run, payload):
@@ -279,5 +315,7 @@ def replay(run, payload):
         for it in its:
             it["gcase"], it["gobs"] = emit_traj(it["case"], it["obs"])
         core.decide(run, its, IMPORTS, acc, oracle_traj)
+    elif acc == "accept_C07":
+        core.decide(run, c07.build_items([c]), c07.IMPORTS, acc, c07.oracle)
     else:
         core.decide(run, items_apply([c]), IMPORTS, acc, oracle_apply)
